@@ -222,22 +222,28 @@ func (d *Decoder) unmarshal(val reflect.Value, tagType byte) error {
 		vt := val.Type()
 		if vt == reflect.TypeOf(ba) {
 			val.SetBytes(ba)
-		} else if vt.Kind() == reflect.Slice {
+		} else if k := vt.Kind(); k == reflect.Slice || k == reflect.Array {
 			switch ve := vt.Elem(); ve.Kind() {
-			case reflect.Int8, reflect.Uint8:
+			case reflect.Bool, reflect.Int8, reflect.Uint8:
 				length := int(aryLen)
-				if val.Cap() < length {
-					val.Set(reflect.MakeSlice(vt, length, length))
-				}
-				val.SetLen(length)
-				switch ve.Kind() {
-				case reflect.Int8:
-					for i := 0; i < length; i++ {
-						val.Index(i).Set(reflect.ValueOf(int8(ba[i])))
+				if k == reflect.Array {
+					if vt.Len() != length {
+						return errors.New("cannot parse TagByteArray to " + vt.String() + ", length not match")
 					}
-				case reflect.Uint8:
-					for i := 0; i < length; i++ {
-						val.Index(i).Set(reflect.ValueOf(ba[i]))
+				} else {
+					if val.Cap() < length {
+						val.Set(reflect.MakeSlice(vt, length, length))
+					}
+					val.SetLen(length)
+				}
+				for i := 0; i < length; i++ {
+					switch ve.Kind() {
+					case reflect.Bool:
+						val.Index(i).SetBool(ba[i] != 0)
+					case reflect.Int8:
+						val.Index(i).SetInt(int64(int8(ba[i])))
+					case reflect.Uint8:
+						val.Index(i).SetUint(uint64(ba[i]))
 					}
 				}
 			default:
